@@ -1,7 +1,11 @@
 use crate::refimpl::*;
 use std::panic;
 
-fn js(s: &str) -> String { format!("{:?}", s) }
+fn js(s: &str) -> String {
+    // JSON string: Rust's {:?} escapes are JSON-compatible for printable ASCII; everything else is replaced
+    let clean: String = s.chars().map(|c| if c == '\n' { ' ' } else if c.is_ascii_graphic() || c == ' ' { c } else { '?' }).collect();
+    format!("{:?}", clean)
+}
 
 fn fail(oracle: &str, input: String, observed: String, expected: String) -> String {
     format!("{{\"oracle\":{},\"failing_input\":{},\"observed\":{},\"expected\":{}}}", js(oracle), js(&input), js(&observed), js(&expected))
@@ -11,7 +15,7 @@ fn none(oracle: &str, tried: usize) -> String {
 }
 
 pub fn run(name: &str, seed: u64, rest: &[String]) -> String {
-    panic::set_hook(Box::new(|_| {}));
+    if std::env::var("WRV_PANIC").is_err() { panic::set_hook(Box::new(|_| {})); }
     match name {
         "crypt_table" => crypt_table_oracle(),
         "hash" => hash_oracle(seed),
@@ -33,11 +37,15 @@ pub fn run(name: &str, seed: u64, rest: &[String]) -> String {
         "ffi_cursor" => ffi_cursor(seed),
         "m2_records" => m2_records(seed),
         "mpq_interop" => mpq_interop(seed),
+        "adt_offsets" => adt_offsets(seed),
+        "f1_stored_multisector" => f1_stored_multisector(),
         "wdl_roundtrip" => wdl_roundtrip(seed),
         "blp_alpha" => blp_codec(seed, true),
         "blp_header" => blp_codec(seed, false),
         "mod_full" => mod_full(),
         "build_lookup" => build_lookup(seed),
+        "wmo_roundtrip" => wmo_roundtrip(seed),
+        "wmo_known" => wmo_known(rest.first().map(|s| s.as_str()).unwrap_or("")),
         _ => { let _ = rest; format!("{{\"oracle\":{},\"error\":\"unknown oracle\"}}", js(name)) }
     }
 }
@@ -73,6 +81,21 @@ fn hash_oracle(seed: u64) -> String {
                 return fail("hash", format!("hash_string({:?}, {:#x})", s, t), format!("{:#010x}", got), format!("{:#010x} (reference MPQ hash)", want));
             }
             let alt: String = s.chars().map(|c| if c == '/' { '\\' } else if c == '\\' { '/' } else if c.is_ascii_lowercase() { c.to_ascii_uppercase() } else { c.to_ascii_lowercase() }).collect();
+            if t == 0 {
+                let j = wow_mpq::crypto::jenkins_hash(s);
+                if j != oaat(s.as_bytes()) { return fail("hash", format!("jenkins_one_at_a_time({:?})", s), format!("{:#018x}", j), format!("{:#018x} (reference one-at-a-time)", oaat(s.as_bytes()))); }
+                if wow_mpq::crypto::jenkins_hash(&alt) != j { return fail("hash", format!("jenkins_one_at_a_time({:?}) vs ({:?})", s, alt), "different".into(), "equal (case/slash invariance)".into()); }
+                for bits in [8u32, 9, 16, 31, 32, 33, 48, 63, 64] {
+                    let (fh, nh) = wow_mpq::crypto::het_hash(s, bits);
+                    let up: Vec<u8> = s.bytes().map(fold).collect();
+                    let (c, b) = hashlittle2(&up, 2, 1);
+                    let full = ((b as u64) << 32) | c as u64;
+                    let want = if bits < 64 { (full & ((1u64 << bits) - 1)) | (1u64 << (bits - 1)) } else { full };
+                    let wn = if bits < 64 { ((want >> (bits - 8)) & 0xFF) as u8 } else { (want >> 56) as u8 };
+                    if fh != want || nh != wn { return fail("hash", format!("jenkins_hashlittle2({:?}, {} bits)", s, bits), format!("({:#x}, {:#x})", fh, nh), format!("({:#x}, {:#x}) (reference lookup3 hashlittle2 of the folded name)", want, wn)); }
+                    if wow_mpq::crypto::het_hash(&alt, bits) != (fh, nh) { return fail("hash", format!("jenkins_hashlittle2({:?}) vs ({:?}), {} bits", s, alt, bits), "different".into(), "equal (case/slash invariance)".into()); }
+                }
+            }
             let got2 = wow_mpq::crypto::hash_string(&alt, t);
             if got2 != got {
                 return fail("hash", format!("hash_string({:?}) vs hash_string({:?}), type {:#x}", s, alt, t), format!("{:#010x} vs {:#010x}", got, got2), "equal (case/slash invariance)".into());
@@ -992,4 +1015,263 @@ fn mpq_interop(seed: u64) -> String {
         }
     }
     none("mpq_interop", tried)
+}
+
+/// F1: a file larger than one sector added with compression 0 must read back bit-identically
+fn f1_stored_multisector() -> String {
+    use wow_mpq::{Archive, ArchiveBuilder, ListfileOption};
+    let dir = tempfile::tempdir().unwrap();
+    let path = dir.path().join("f1.mpq");
+    let data: Vec<u8> = (0..10_000u32).map(|i| (i * 31 + 7) as u8).collect();
+    let b = ArchiveBuilder::new().block_size(3).listfile_option(ListfileOption::None).add_file_data_with_options(data.clone(), "big.bin", 0, false, 0);
+    if let Err(e) = b.build(&path) { return format!("{{\"oracle\":\"f1_stored_multisector\",\"error\":{:?}}}", e.to_string()); }
+    let mut a = match Archive::open(&path) { Ok(a) => a, Err(e) => return fail("f1_stored_multisector", "10000-byte file, compression 0, 4 KiB sectors".into(), format!("open Err({})", e), "Ok".into()) };
+    match a.read_file("big.bin") {
+        Ok(got) if got == data => none("f1_stored_multisector", 1),
+        Ok(got) => fail("f1_stored_multisector", "10000-byte file added with compression 0, 4 KiB sectors (block_size 3), V1".into(), format!("read_file returns {} bytes (sector offset table prepended)", got.len()), "the 10000 added bytes".into()),
+        Err(e) => fail("f1_stored_multisector", "10000-byte file added with compression 0, 4 KiB sectors".into(), format!("read_file Err({})", e), "the 10000 added bytes".into()),
+    }
+}
+
+fn minimal_mcnk(ix: u32, iy: u32) -> wow_adt::chunks::McnkChunk {
+    use wow_adt::chunks::{McnkChunk, McnkFlags, McnkHeader};
+    McnkChunk {
+        header: McnkHeader { flags: McnkFlags { value: 0 }, index_x: ix, index_y: iy, n_layers: 0, n_doodad_refs: 0,
+            multipurpose_field: McnkHeader::multipurpose_from_offsets(0, 0), ofs_layer: 0, ofs_refs: 0, ofs_alpha: 0, size_alpha: 0,
+            ofs_shadow: 0, size_shadow: 0, area_id: 0, n_map_obj_refs: 0, holes_low_res: 0, unknown_but_used: 0, pred_tex: [0; 8],
+            no_effect_doodad: [0; 8], unknown_8bytes: [0; 8], ofs_snd_emitters: 0, n_snd_emitters: 0, ofs_liquid: 0, size_liquid: 0,
+            position: [0.0, 0.0, 0.0], ofs_mccv: 0, ofs_mclv: 0, unused: 0, _padding: [0; 8] },
+        heights: None, normals: None, layers: None, materials: None, refs: None, doodad_refs: None, wmo_refs: None, alpha: None,
+        shadow: None, vertex_colors: None, vertex_lighting: None, sound_emitters: None, liquid: None, doodad_disable: None, blend_batches: None,
+    }
+}
+
+/// ADT builder output, walked by an independent chunk reader: framing tiles the file exactly; every non-zero MHDR
+/// entry points at a chunk of the named type; MMID/MWID entries point at the start of the i-th name; MCIN has 256
+/// entries pointing at MCNK chunks
+fn adt_offsets(seed: u64) -> String {
+    use wow_adt::{AdtBuilder, AdtVersion};
+    let mut rng = Rng(seed ^ 0xAD7);
+    let mut tried = 0;
+    for round in 0..20 {
+        let nm = (rng.next() % 4) as usize; let nw = (rng.next() % 4) as usize; let nc = 1 + (rng.next() % 3) as usize;
+        let models: Vec<String> = (0..nm).map(|i| format!("world/m{}{}.m2", "x".repeat((rng.next() % 5) as usize), i)).collect();
+        let wmos: Vec<String> = (0..nw).map(|i| format!("world/w{}{}.wmo", "y".repeat((rng.next() % 7) as usize), i)).collect();
+        let mut b = AdtBuilder::new().with_version(if round % 2 == 0 { AdtVersion::VanillaEarly } else { AdtVersion::WotLK }).add_texture("tileset/grass.blp");
+        for m in &models { b = b.add_model(m.clone()); }
+        for w in &wmos { b = b.add_wmo(w.clone()); }
+        for i in 0..nc { b = b.add_mcnk_chunk(minimal_mcnk(i as u32, 0)); }
+        let desc = format!("ADT with models {:?}, wmos {:?}, {} MCNK", models, wmos, nc);
+        let bytes = match b.build().and_then(|a| a.to_bytes()) { Ok(x) => x, Err(_) => continue };
+        tried += 1;
+        // independent chunk walk
+        let mut chunks: Vec<(String, usize, usize)> = Vec::new(); // (magic as stored reversed->forward, header pos, size)
+        let mut p = 0usize;
+        while p < bytes.len() {
+            if p + 8 > bytes.len() { return fail("adt_offsets", desc, format!("{} trailing bytes at {}", bytes.len() - p, p), "chunk framing tiles the file exactly".into()); }
+            let mg: String = bytes[p..p + 4].iter().rev().map(|&c| c as char).collect();
+            let sz = u32::from_le_bytes([bytes[p + 4], bytes[p + 5], bytes[p + 6], bytes[p + 7]]) as usize;
+            if p + 8 + sz > bytes.len() { return fail("adt_offsets", desc, format!("chunk {} at {} size {} runs past the end ({})", mg, p, sz, bytes.len()), "chunk framing tiles the file exactly".into()); }
+            chunks.push((mg, p, sz));
+            p += 8 + sz;
+        }
+        let find = |m: &str| chunks.iter().find(|c| c.0 == m).cloned();
+        let mhdr = match find("MHDR") { Some(c) => c, None => return fail("adt_offsets", desc, "no MHDR".into(), "MHDR".into()) };
+        let base = mhdr.1 + 8;
+        let rd = |o: usize| u32::from_le_bytes([bytes[o], bytes[o + 1], bytes[o + 2], bytes[o + 3]]) as usize;
+        for (i, name) in ["MCIN", "MTEX", "MMDX", "MMID", "MWMO", "MWID", "MDDF", "MODF", "MFBO", "MH2O", "MTXF"].iter().enumerate() {
+            let off = rd(base + 4 + i * 4);
+            if off == 0 { continue; }
+            let at = base + off;
+            let got: String = if at + 4 <= bytes.len() { bytes[at..at + 4].iter().rev().map(|&c| c as char).collect() } else { "<past end>".into() };
+            if &got != name { return fail("adt_offsets", desc, format!("MHDR entry {} points at '{}' (file offset {})", name, got, at), format!("a {} chunk", name)); }
+        }
+        for (idxm, strm, names) in [("MMID", "MMDX", &models), ("MWID", "MWMO", &wmos)] {
+            if let (Some(ic), Some(sc)) = (find(idxm), find(strm)) {
+                let n = ic.2 / 4;
+                if n != names.len() { return fail("adt_offsets", desc, format!("{} has {} entries", idxm, n), format!("{}", names.len())); }
+                for i in 0..n {
+                    let o = rd(ic.1 + 8 + i * 4);
+                    let s0 = sc.1 + 8 + o;
+                    let want = names[i].as_bytes();
+                    if o + want.len() + 1 > sc.2 || &bytes[s0..s0 + want.len()] != want || bytes[s0 + want.len()] != 0 { return fail("adt_offsets", desc, format!("{} entry {} = {} does not point at {:?} in {}", idxm, i, o, names[i], strm), "offset of the i-th NUL-terminated name".into()); }
+                }
+            }
+        }
+        if let Some(mc) = find("MCIN") {
+            if mc.2 != 256 * 16 { return fail("adt_offsets", desc, format!("MCIN size {}", mc.2), "4096 (256 entries)".into()); }
+            for i in 0..256 {
+                let o = rd(mc.1 + 8 + i * 16); let sz = rd(mc.1 + 8 + i * 16 + 4);
+                if i < nc { let got: String = if o + 4 <= bytes.len() { bytes[o..o + 4].iter().rev().map(|&c| c as char).collect() } else { "<past end>".into() };
+                    if got != "MCNK" || o + sz > bytes.len() { return fail("adt_offsets", desc, format!("MCIN entry {} -> '{}' at {} size {}", i, got, o, sz), "an MCNK chunk".into()); } }
+                else if o != 0 || sz != 0 { return fail("adt_offsets", desc, format!("MCIN entry {} = ({}, {})", i, o, sz), "zero padding".into()); }
+            }
+        }
+    }
+    none("adt_offsets", tried)
+}
+
+
+// ---------------------------------------------------------------------------------------------- wow-wmo
+fn wmo_base_root(v: wow_wmo::WmoVersion) -> wow_wmo::WmoRoot {
+    use wow_wmo::*;
+    let z = Vec3 { x: 0.0, y: 0.0, z: 0.0 };
+    WmoRoot { version: v, materials: vec![], groups: vec![], portals: vec![], portal_references: vec![], visible_block_lists: vec![],
+        lights: vec![], doodad_defs: vec![], doodad_sets: vec![], bounding_box: BoundingBox { min: z, max: z }, textures: vec![],
+        texture_offset_index_map: std::collections::HashMap::new(),
+        header: WmoHeader { n_materials: 0, n_groups: 0, n_portals: 0, n_lights: 0, n_doodad_names: 0, n_doodad_defs: 0, n_doodad_sets: 0,
+            flags: WmoFlags::empty(), ambient_color: Color { r: 1, g: 2, b: 3, a: 4 } },
+        skybox: None, convex_volume_planes: None }
+}
+
+const WMO_VERSIONS: [wow_wmo::WmoVersion; 6] = [wow_wmo::WmoVersion::Classic, wow_wmo::WmoVersion::Tbc, wow_wmo::WmoVersion::Wotlk,
+    wow_wmo::WmoVersion::Cataclysm, wow_wmo::WmoVersion::Mop, wow_wmo::WmoVersion::Wod];
+
+/// independent chunk walk: (reversed id as written, payload offset, payload length); Err if the framing does not tile the file
+fn wmo_walk(bytes: &[u8]) -> Result<Vec<([u8; 4], usize, usize)>, String> {
+    let mut out = Vec::new();
+    let mut p = 0usize;
+    while p < bytes.len() {
+        if p + 8 > bytes.len() { return Err(format!("truncated chunk header at byte {}", p)); }
+        let id = [bytes[p + 3], bytes[p + 2], bytes[p + 1], bytes[p]];
+        let n = u32::from_le_bytes([bytes[p + 4], bytes[p + 5], bytes[p + 6], bytes[p + 7]]) as usize;
+        if !id.iter().all(|c| c.is_ascii_uppercase() || c.is_ascii_digit()) { return Err(format!("byte {} is not a chunk header (id {:02x?}): the previous size field is wrong", p, id)); }
+        if p + 8 + n > bytes.len() { return Err(format!("chunk {} at byte {} declares {} bytes, file has {}", String::from_utf8_lossy(&id), p, n, bytes.len() - p - 8)); }
+        out.push((id, p + 8, n));
+        p += 8 + n;
+    }
+    Ok(out)
+}
+
+/// WmoWriter::write_root on populated roots, checked by an independent chunk walk: framing tiles the file (every size
+/// field equals the payload written), MOHD counts equal the list lengths, MOTX/MOGN payloads are the names NUL-terminated,
+/// every MOGI name offset points at that group's name; and WmoParser::parse_root returns the names / materials written.
+fn wmo_roundtrip(seed: u64) -> String {
+    use wow_wmo::*;
+    let mut rng = Rng(seed ^ 0x3370);
+    let mut tried = 0;
+    for &v in WMO_VERSIONS.iter() {
+        for round in 0..4u32 {
+            tried += 1;
+            let mut r = wmo_base_root(v);
+            let ntex = (round + (rng.next() % 2) as u32) as usize;
+            for i in 0..ntex { r.textures.push(format!("tex\\shared_{}{}.blp", "x".repeat(i), i)); }
+            let nmat = round as usize;
+            for i in 0..nmat {
+                r.materials.push(WmoMaterial { flags: WmoMaterialFlags::from_bits_truncate(i as u32), shader: i as u32, blend_mode: 1, texture1: 0,
+                    emissive_color: Color { r: 9, g: 8, b: 7, a: 6 }, sidn_color: Color { r: 1, g: 1, b: 1, a: 1 }, framebuffer_blend: Color { r: 0, g: 0, b: 0, a: 0 },
+                    texture2: 0, diffuse_color: Color { r: 5, g: 5, b: 5, a: 5 }, ground_type: 3 + i as u32 });
+            }
+            let ngrp = (round + 1) as usize;
+            for i in 0..ngrp {
+                let f = i as f32;
+                r.groups.push(WmoGroupInfo { flags: WmoGroupFlags::from_bits_truncate(1 << i), bounding_box: BoundingBox { min: Vec3 { x: -f, y: -f, z: -f }, max: Vec3 { x: f, y: f, z: f } },
+                    name: format!("grp{}_{}", "n".repeat(i), i) });
+            }
+            if round > 0 { r.doodad_sets.push(WmoDoodadSet { name: "Set_Default".into(), start_doodad: 0, n_doodads: 0 }); }
+            r.header.n_materials = nmat as u32; r.header.n_groups = ngrp as u32; r.header.n_doodad_sets = r.doodad_sets.len() as u32;
+            let desc = format!("root for {:?}: {} textures {:?}, {} materials, groups {:?}, {} doodad sets", v, ntex, r.textures, nmat, r.groups.iter().map(|g| g.name.clone()).collect::<Vec<_>>(), r.doodad_sets.len());
+            let mut out = std::io::Cursor::new(Vec::new());
+            match catch(std::panic::AssertUnwindSafe(|| WmoWriter::new().write_root(&mut out, &r, v))) {
+                Err(p) => return fail("wmo_roundtrip", desc, format!("write_root panic: {}", p), "Ok".into()),
+                Ok(Err(e)) => return fail("wmo_roundtrip", desc, format!("write_root Err({})", e), "Ok".into()),
+                Ok(Ok(())) => {}
+            }
+            let bytes = out.into_inner();
+            let chunks = match wmo_walk(&bytes) { Ok(c) => c, Err(e) => return fail("wmo_roundtrip", desc, format!("chunk framing broken: {}", e), "every size field equals the payload bytes written".into()) };
+            let find = |id: &[u8; 4]| chunks.iter().find(|c| &c.0 == id).map(|c| &bytes[c.1..c.1 + c.2]);
+            let mohd = match find(b"MOHD") { Some(m) if m.len() >= 28 => m, _ => return fail("wmo_roundtrip", desc, "no MOHD chunk of at least 28 bytes".into(), "MOHD".into()) };
+            let cnt = |i: usize| u32::from_le_bytes([mohd[4 * i], mohd[4 * i + 1], mohd[4 * i + 2], mohd[4 * i + 3]]) as usize;
+            let want = [nmat, ngrp, 0, 0, 0, 0, r.doodad_sets.len()];
+            for i in 0..7 { if cnt(i) != want[i] { return fail("wmo_roundtrip", desc, format!("MOHD count #{} is {}", i, cnt(i)), format!("{}", want[i])); } }
+            let names_blob = |names: Vec<&String>| { let mut b = Vec::new(); for n in names { b.extend_from_slice(n.as_bytes()); b.push(0); } b };
+            if ntex > 0 && find(b"MOTX") != Some(&names_blob(r.textures.iter().collect())[..]) { return fail("wmo_roundtrip", desc, "MOTX payload is not the texture names, NUL-terminated, in order".into(), "names".into()); }
+            let mogn = names_blob(r.groups.iter().map(|g| &g.name).collect());
+            if find(b"MOGN") != Some(&mogn[..]) { return fail("wmo_roundtrip", desc, "MOGN payload is not the group names, NUL-terminated, in order".into(), "names".into()); }
+            let mogi = match find(b"MOGI") { Some(m) if m.len() == 32 * ngrp => m, Some(m) => return fail("wmo_roundtrip", desc, format!("MOGI has {} bytes", m.len()), format!("{}", 32 * ngrp)), None => return fail("wmo_roundtrip", desc, "no MOGI".into(), "MOGI".into()) };
+            for (i, g) in r.groups.iter().enumerate() {
+                let off = u32::from_le_bytes([mogi[32 * i + 28], mogi[32 * i + 29], mogi[32 * i + 30], mogi[32 * i + 31]]) as usize;
+                let at = mogn.get(off..).map(|s| &s[..s.iter().position(|&b| b == 0).unwrap_or(s.len())]);
+                if at != Some(g.name.as_bytes()) { return fail("wmo_roundtrip", desc, format!("MOGI entry {} has name offset {} which names {:?}", i, off, at.map(|b| String::from_utf8_lossy(b).to_string())), format!("offset of {:?}", g.name)); }
+            }
+            if nmat > 0 { match find(b"MOMT") { Some(m) if m.len() == 64 * nmat => {}, Some(m) => return fail("wmo_roundtrip", desc, format!("MOMT declares {} bytes", m.len()), format!("{} (64 per material written)", 64 * nmat)), None => return fail("wmo_roundtrip", desc, "no MOMT".into(), "MOMT".into()) } }
+            // parse side (legacy parser, the writer's counterpart)
+            let back = match catch(std::panic::AssertUnwindSafe(|| WmoParser::new().parse_root(&mut std::io::Cursor::new(bytes.clone())))) {
+                Err(p) => return fail("wmo_roundtrip", desc, format!("parse_root panic: {}", p), "Ok".into()),
+                Ok(Err(e)) => return fail("wmo_roundtrip", desc, format!("parse_root Err({})", e), "Ok".into()),
+                Ok(Ok(b)) => b };
+            if back.textures != r.textures { return fail("wmo_roundtrip", desc, format!("parsed textures {:?}", back.textures), "the written textures".into()); }
+            let gn = |x: &WmoRoot| x.groups.iter().map(|g| g.name.clone()).collect::<Vec<_>>();
+            if gn(&back) != gn(&r) { return fail("wmo_roundtrip", desc, format!("parsed group names {:?}", gn(&back)), format!("{:?}", gn(&r))); }
+            if back.materials.len() != nmat || back.doodad_sets.len() != r.doodad_sets.len() { return fail("wmo_roundtrip", desc, format!("parsed {} materials, {} doodad sets", back.materials.len(), back.doodad_sets.len()), format!("{} / {}", nmat, r.doodad_sets.len())); }
+            for (a, b) in back.materials.iter().zip(r.materials.iter()) {
+                if (a.flags.bits(), a.shader, a.blend_mode, a.texture1, a.texture2, a.ground_type) != (b.flags.bits(), b.shader, b.blend_mode, b.texture1, b.texture2, b.ground_type) { return fail("wmo_roundtrip", desc, format!("material parsed as {:?}", a), format!("{:?}", b)); }
+            }
+        }
+    }
+    none("wmo_roundtrip", tried)
+}
+
+/// native confirmation of the recorded (unrepaired) wow-wmo findings; `which` selects one
+fn wmo_known(which: &str) -> String {
+    use wow_wmo::*;
+    let v = WmoVersion::Wotlk;
+    match which {
+        "group_parser_stub" => {
+            let z = Vec3 { x: 0.0, y: 0.0, z: 0.0 };
+            let g = WmoGroup { header: WmoGroupHeader { flags: WmoGroupFlags::empty(), bounding_box: BoundingBox { min: z, max: z }, name_offset: 0, group_index: 0 },
+                materials: vec![], vertices: vec![Vec3 { x: 1.0, y: 2.0, z: 3.0 }], normals: vec![], tex_coords: vec![], batches: vec![], indices: vec![0, 0, 0],
+                vertex_colors: None, bsp_nodes: None, liquid: None, doodad_refs: None };
+            let mut out = std::io::Cursor::new(Vec::new());
+            if let Err(e) = WmoWriter::new().write_group(&mut out, &g, v) { return format!("{{\"oracle\":\"wmo_known\",\"error\":{:?}}}", e.to_string()); }
+            match WmoGroupParser::new().parse_group(&mut std::io::Cursor::new(out.into_inner()), 0) {
+                Ok(_) => none("wmo_known", 1),
+                Err(e) => fail("wmo_known", "write_group of a one-vertex group, then WmoGroupParser::parse_group".into(), format!("Err({})", e), "the written group".into()),
+            }
+        }
+        "parse_wmo_header" => {
+            let r = wmo_base_root(v);
+            let mut out = std::io::Cursor::new(Vec::new());
+            if let Err(e) = WmoWriter::new().write_root(&mut out, &r, v) { return format!("{{\"oracle\":\"wmo_known\",\"error\":{:?}}}", e.to_string()); }
+            match parse_wmo(&mut std::io::Cursor::new(out.into_inner())) {
+                Ok(_) => none("wmo_known", 1),
+                Err(e) => fail("wmo_known", "write_root of an empty root, then parse_wmo".into(), format!("Err({})", e), "Ok".into()),
+            }
+        }
+        "root_bbox" => {
+            let mut r = wmo_base_root(v);
+            r.bounding_box = BoundingBox { min: Vec3 { x: -5.0, y: -5.0, z: -5.0 }, max: Vec3 { x: 5.0, y: 5.0, z: 5.0 } };
+            let mut out = std::io::Cursor::new(Vec::new());
+            if let Err(e) = WmoWriter::new().write_root(&mut out, &r, v) { return format!("{{\"oracle\":\"wmo_known\",\"error\":{:?}}}", e.to_string()); }
+            match WmoParser::new().parse_root(&mut std::io::Cursor::new(out.into_inner())) {
+                Ok(b) if format!("{:?}", b.bounding_box) == format!("{:?}", r.bounding_box) => none("wmo_known", 1),
+                Ok(b) => fail("wmo_known", "root without groups, bounding box (-5,-5,-5)..(5,5,5), write_root then parse_root".into(), format!("{:?}", b.bounding_box), format!("{:?}", r.bounding_box)),
+                Err(e) => fail("wmo_known", "root with bounding box".into(), format!("Err({})", e), "Ok".into()),
+            }
+        }
+        "doodad_name_offset" => {
+            let mut r = wmo_base_root(v);
+            r.doodad_defs.push(WmoDoodadDef { name_offset: 5, position: Vec3 { x: 0.0, y: 0.0, z: 0.0 }, orientation: [0.0, 0.0, 0.0, 1.0], scale: 1.0, color: Color { r: 0, g: 0, b: 0, a: 0 }, set_index: 0 });
+            r.header.n_doodad_defs = 1; r.header.n_doodad_names = 1;
+            let mut out = std::io::Cursor::new(Vec::new());
+            if let Err(e) = WmoWriter::new().write_root(&mut out, &r, v) { return format!("{{\"oracle\":\"wmo_known\",\"error\":{:?}}}", e.to_string()); }
+            match WmoParser::new().parse_root(&mut std::io::Cursor::new(out.into_inner())) {
+                Ok(b) if b.doodad_defs.len() == 1 && b.doodad_defs[0].name_offset == 5 => none("wmo_known", 1),
+                Ok(b) => fail("wmo_known", "one doodad definition with name_offset 5, write_root then parse_root".into(), format!("name_offset {:?}", b.doodad_defs.iter().map(|d| d.name_offset).collect::<Vec<_>>()), "[5]".into()),
+                Err(e) => fail("wmo_known", "root with one doodad definition".into(), format!("Err({})", e), "Ok".into()),
+            }
+        }
+        "skybox_wotlk" => {
+            let mut r = wmo_base_root(v);
+            r.skybox = Some("sky\\box.m2".to_string());
+            let mut out = std::io::Cursor::new(Vec::new());
+            if let Err(e) = WmoWriter::new().write_root(&mut out, &r, v) { return format!("{{\"oracle\":\"wmo_known\",\"error\":{:?}}}", e.to_string()); }
+            match WmoParser::new().parse_root(&mut std::io::Cursor::new(out.into_inner())) {
+                Ok(b) if b.skybox == r.skybox => none("wmo_known", 1),
+                Ok(b) => fail("wmo_known", "WotLK root with skybox Some(\"sky\\\\box.m2\"), write_root then parse_root".into(), format!("{:?}", b.skybox), format!("{:?}", r.skybox)),
+                Err(e) => fail("wmo_known", "root with skybox".into(), format!("Err({})", e), "Ok".into()),
+            }
+        }
+        _ => format!("{{\"oracle\":\"wmo_known\",\"error\":\"unknown finding selector\"}}"),
+    }
 }
